@@ -77,9 +77,45 @@ def pub_mut_api(repo):
             out.append({"fn": m.group(1), "file": rel})
     return out
 
+def json_prints(repo):
+    """every print!/println!/format! in rinklecate/src/player.rs whose format string builds JSON (starts with `{{\"` or `\"{}\"`),
+    with its arguments; an argument is SAFE if it is escape_json_string(..), a .len(), or a join of already-escaped parts"""
+    p = os.path.join(repo, "rinklecate/src/player.rs")
+    text = open(p, errors="replace").read()
+    out = []
+    for m in re.finditer(r"(println!|print!|format!)\s*\(", text):
+        # balanced parens
+        i = m.end(); depth = 1
+        while i < len(text) and depth > 0:
+            ch = text[i]
+            if ch == '"':
+                i += 1
+                while i < len(text) and text[i] != '"':
+                    i += 2 if text[i] == "\\" else 1
+            elif ch == "(":
+                depth += 1
+            elif ch == ")":
+                depth -= 1
+            i += 1
+        call = text[m.start():i]
+        sq = re.sub(r"\s+", " ", call)
+        fm = re.search(r'\(\s*"((?:[^"\\]|\\.)*)"', sq)
+        if not fm:
+            continue
+        fmt = fm.group(1)
+        if not (fmt.startswith('{{\\"') or fmt.startswith('\\"{}\\"') ):
+            continue
+        args = sq[fm.end():].rstrip(")").strip().lstrip(",").strip()
+        line = text.count("\n", 0, m.start()) + 1
+        out.append({"key": re.sub(r"\s+", "", sq)[:160], "line": line, "format": fmt, "args": args})
+    return out
+
 if __name__ == "__main__":
     repo = sys.argv[2] if len(sys.argv) > 2 else "/repo"
-    if sys.argv[1] == "hash":
+    if sys.argv[1] == "json":
+        for s_ in json_prints(repo):
+            print(s_["key"], "   # line", s_["line"], "| args:", s_["args"])
+    elif sys.argv[1] == "hash":
         for s in hash_iteration_sites(repo):
             print(s["key"], "   #", s["file"] + ":" + str(s["line"]))
     else:
